@@ -6,8 +6,13 @@ EXTENDS BitPrimsP, Json, IOUtils
 Trace == ndJsonDeserialize(IOEnv.TRACE_FILE)
 VARIABLE l
 
+(* pointer watch (records of the instrumented C build carry psrc = the largest byte offset from the declared source buffer at which a source  *)
+(* pointer was formed, -1 = none): a bounded fetch never forms a pointer beyond one-past-the-end of the declared buffer (C04 / C14)            *)
+PtrOK(r) == ("psrc" \in DOMAIN r) => r.psrc <= r.size
+
 Verdict(r) ==
-    IF r.ev = "copy" THEN (IF r.out = PCopy(r.dst, r.do, r.len, r.src, r.so) THEN "ok" ELSE "prim.copy")
+    IF ~PtrOK(r) THEN "prim.ptr_inside"
+    ELSE IF r.ev = "copy" THEN (IF r.out = PCopy(r.dst, r.do, r.len, r.src, r.so) THEN "ok" ELSE "prim.copy")
     ELSE IF r.ev = "getbits" THEN (IF r.out = PGetBits(r.out0, SubSeq(r.buf, 1, r.size), r.off, r.len) THEN "ok" ELSE "prim.getbits")
     ELSE IF r.ev = "setu" THEN
         LET e == PSetU(r.buf, r.size, r.off, r.val, r.len)
